@@ -86,11 +86,11 @@ KERNEL = ["theories/KernelProps.vo", "theories/Enc.vo", "theories/Num.vo"]
 PROP_TARGETS: dict[str, list[str]] = {
     "C03": KERNEL + ["theories/Perm.vo", "gen/PermGen.vo"], "C05": KERNEL, "C07": KERNEL, "C08": KERNEL,
     "C19": KERNEL + ["theories/RuleIds.vo", "gen/Rules.vo"],
-    "C01": ["theories/Flatten.vo"],
+    "C01": ["theories/Flatten.vo", "theories/Fact.vo"],
     "C02": ["theories/Flatten.vo", "theories/Affine.vo"],
     "C04": ["theories/Flatten.vo"],
     "C06": ["theories/FormData.vo"],
-    "C09": ["theories/MathTab.vo", "gen/MathTabGen.vo"],
+    "C09": ["theories/MathTab.vo", "gen/MathTabGen.vo", "theories/Fact.vo"],
     "C11": ["theories/Scopes.vo", "gen/ScopeGen.vo", "theories/QuadExact.vo", "gen/QuadGen.vo"],
     "C12": ["theories/Order.vo", "gen/SitesGen.vo"],
     "C18": ["theories/Fmt.vo", "gen/PrecGen.vo", "theories/PyFmt.vo"],
